@@ -198,6 +198,20 @@ def check_case(ctx, out, desc, fn, keep_ids, arg):
                           f'{fn} left non-exempt short circuit(s) {left} in the result', gen_net.pretty(desc),
                           impl=dict(result=str(net_struct(res))), desc=desc, fn=fn, keep_ids=keep_ids, arg=arg)
             return
+        # … and a branch that the contraction turned into a self-loop (an element parallel to a contracted short) is
+        # dropped, as the operation says (anchor: "rename absorbed node -> retained node over all branches and drop
+        # self-loops"; model: C16_contract_shape).  Since the repair 09dbe49 a leftover self-loop is electrically inert,
+        # so only this structural clause sees it (seeded change C16-B).  Self-loops of the INPUT survive when nothing is
+        # contracted — compare only when the result differs from the input.
+        loops = [b.id for b in res.branches if b.node1 == b.node2]
+        loops_in = {b.id for b in net.branches if b.node1 == b.node2}
+        contracted = len(res.branches) != len(net.branches) or any(rb.node1 != nb.node1 or rb.node2 != nb.node2
+                                                                   for rb, nb in zip(res.branches, net.branches))
+        if contracted and [i for i in loops if i not in loops_in]:
+            out.spec_fail(dict(canon, symptom='self_loop_left_behind'),
+                          f'{fn} left branch(es) {[i for i in loops if i not in loops_in]} with both terminals on one node in the result',
+                          gen_net.pretty(desc), impl=dict(result=str(net_struct(res))), desc=desc, fn=fn, keep_ids=keep_ids, arg=arg)
+            return
     structural_only = fn in ('remove_element', 'short_circuitify_voltage_sources', 'open_circuitify_current_sources',
                              'remove_ideal_current_sources', 'remove_ideal_voltage_sources', 'passive_network')
     if fn == 'remove_element':
